@@ -346,7 +346,7 @@ with parse_members (fuel : nat) (depth : Z) (s : str) (acc : list (str * value))
 
 (** [Variable::from_json]: one value, then only whitespace. *)
 Definition from_json (s : str) : res (option value) :=
-  let* o := parse_value (S (length s)) 128 s in
+  let* o := parse_value (4 + 2 * length s) 128 s in
   match o with
   | Some (v, r) => match skip_ws r with [] => Ok (Some v) | _ => Ok None end
   | None => Ok None
